@@ -2,6 +2,7 @@ package psim
 
 import (
 	"fmt"
+	"os"
 	"strings"
 )
 
@@ -71,7 +72,7 @@ func describeRun(r *Run, withProg bool) map[string]interface{} {
 		for _, e := range r.Trace {
 			lines = append(lines, fmt.Sprintf("%d %s %s %s", e.Step, e.Task, e.Kind, e.Detail))
 		}
-		if len(lines) > 400 {
+		if len(lines) > 400 && os.Getenv("VERIF_FULLSCHED") == "" {
 			lines = append(lines[:200], append([]string{"..."}, lines[len(lines)-200:]...)...)
 		}
 		m["schedule"] = lines
@@ -157,6 +158,7 @@ func dataflowCase(c *Ctx, focus string) {
 		c.Res.Probes["instances"] += len(ev.Insts)
 		c.Res.Probes["mapped-calls"] += ev.NMapped
 		c.Res.Probes["disabled-calls"] += ev.NDisabled
+		c.Res.Probes["statically-null-output-of-runtime-disabled-pipeline"] += ev.NStaticNull
 		c.Res.Probes["empty-or-null-map-source"] += ev.NEmptyMap
 		c.Res.Probes["struct-narrowing"] += ev.NNarrow
 		c.Res.Probes["projections"] += ev.NProj
